@@ -258,6 +258,12 @@ func (vm *VirtualMachine) resetForNewCode() {
 	vm.activeCode = nil
 	vm.loadedCode = map[*compiler.Code]*code{}
 	vm.modules = map[string]*object.Module{}
+	// Modules that were supplied as globals stay importable, as on a new VM
+	for name, value := range vm.globals {
+		if module, ok := value.(*object.Module); ok {
+			vm.modules[name] = module
+		}
+	}
 
 	// Clear arrays
 	for i := 0; i < MaxStackDepth; i++ {
